@@ -14,9 +14,10 @@ From Coq Require Import ZArith List Bool.
 Import ListNotations.
 Local Open Scope Z_scope.
 
-Definition W : Z := 2 ^ 256.
-Definition HALF : Z := 2 ^ 255.
-Definition U64 : Z := 2 ^ 64.
+(* literals (the VM would otherwise recompute the power at every use) *)
+Definition W : Z := Eval vm_compute in 2 ^ 256.
+Definition HALF : Z := Eval vm_compute in 2 ^ 255.
+Definition U64 : Z := Eval vm_compute in 2 ^ 64.
 Definition word (x : Z) : Prop := 0 <= x < W.
 Definition wordb (x : Z) : bool := (0 <=? x) && (x <? W).
 
